@@ -387,7 +387,45 @@ def exp(x):
     return SV(r)
 
 
+class InfOr:
+    """a value that is +infinity when `cond` holds and the finite term `fin` otherwise (numpy: 0.0 ** negative = inf).  Only
+    the operations that keep this shape are modelled: multiplication by a positive constant, adding a finite number, and
+    finite / InfOr (which is 0 where the value is infinite)."""
+    __array_ufunc__ = None
+
+    def __init__(self, cond, fin):
+        self.cond, self.fin = cond, fin
+
+    def _scale(self, k):
+        if isinstance(k, (int, float)) and k > 0:
+            return InfOr(self.cond, self.fin * k)
+        raise Unsupported("InfOr scaled by a non-positive or symbolic factor")
+
+    def __mul__(self, k): return self._scale(k)
+    __rmul__ = __mul__
+
+    def __add__(self, c):
+        if isinstance(c, (int, float, SV)):
+            return InfOr(self.cond, self.fin + c)
+        raise Unsupported("InfOr + non-number")
+    __radd__ = __add__
+
+    def __rtruediv__(self, x):
+        from .sym import ite, SB
+        if isinstance(x, (int, float, SV)):
+            ft = real(to_z3(self.fin))
+            ctx().oblige("safe.div-nonzero", z3.Implies(z3.Not(self.cond), ft != 0), kind="safe")
+            return ite(SB(self.cond), 0.0, SV(real(to_z3(x)) / ft))
+        raise Unsupported("non-number / InfOr")
+
+
 def power(b, e):
-    """b ** e for non-trivial exponents: uninterpreted pow(b,e)"""
+    """b ** e for non-trivial exponents: uninterpreted pow(b,e); for a negative constant exponent numpy gives +inf at b == 0"""
     f = uf("pow", z3.RealSort(), z3.RealSort(), z3.RealSort())
-    return SV(f(real(to_z3(b)), real(to_z3(e))))
+    bt = real(to_z3(b))
+    fin = SV(f(bt, real(to_z3(e))))
+    if isinstance(e, (int, float)) and e < 0:
+        cx = ctx()
+        cx.axiom("pow(b, e) > 0 for b > 0", z3.Implies(bt > 0, fin.t > 0))
+        return InfOr(bt == 0, fin)
+    return fin
